@@ -42,7 +42,9 @@ Definition escape_rx (w : word) : word :=
     | c :: r => rev r ++ [bsl; c]
     | [] => w
     end
-  else if rx_matches re_md_specials w then bsl :: w
+  else if rx_matches re_md_specials w then
+    if forallb (fun c => N.eqb c 42 || N.eqb c 95) w then flat_map (fun c => [bsl; c]) w   (* set(word) <= {"*", "_"} *)
+    else bsl :: w
   else w.
 
 (* ---- wrap_paragraph_lines with the default (HTML/Markdown aware) splitter ---- *)
@@ -79,6 +81,7 @@ Fixpoint wrap_hard_segments (base : wrapper) (segs : list str) (first : bool) (i
   | [seg] => w <- base seg (if first then i1 else i2) i2 ;; ret [w]
   | seg :: rest =>
       w <- base seg (if first then i1 else i2) i2 ;;
+      let w := match w with [] => (if first then i1 else i2) | _ => w end in   (* an empty segment keeps its indent *)
       ws <- wrap_hard_segments base rest false i1 i2 ;;
       ret ((w ++ [bsl]) :: ws)
   end.
